@@ -20,6 +20,7 @@ module WorkerK = struct
     | [1; h] -> KOp (Worker.KDone (nat_of_int h))
     | [2; k] -> KOp (Worker.KRelease (nat_of_int k))
     | [3] -> KNop
+    | [4; k] -> KOp (Worker.KEarly (nat_of_int k))
     | l -> failwith ("workerk: bad op " ^ show_ints l)
   let ints_of_out o = o
   let blocked _ = false
@@ -29,7 +30,7 @@ module WorkerKC = Check (WorkerK)
 (* ---- K2: free-running histories against the interleaving model (Worker.step faithful) ----
    The model numbers holders in the order of their Do steps; the harness tags them itself, so the adapter state carries
    the tag -> holder map.  Watcher steps and close(done) are invisible to the harness: `internal` is their closure. *)
-type wk_op = WDo of int | WDone of int | WInst of int
+type wk_op = WDo of int | WDone of int | WInst of int | WEarly of int
 
 module WorkerM = struct
   type st = Worker.st * (int * int) list
@@ -62,6 +63,10 @@ module WorkerM = struct
              else match Worker.step fl s (Worker.LI (nat_of_int k)) with
                | Some s' -> ((s', m), phase)
                | None -> ((s, m), blocked_out))
+    | WEarly k ->   (* the function returns on its own, stop not seen *)
+        (match Worker.step fl s (Worker.LIE (nat_of_int k)) with
+         | Some s' -> ((s', m), 4)
+         | None -> ((s, m), blocked_out))
   (* all states reachable through watcher steps and close(done) steps (not including the start state) *)
   let internal (s, m) =
     let succs s =
@@ -87,6 +92,7 @@ module WorkerM = struct
     | [0; tag] -> WDo tag
     | [1; tag] -> WDone tag
     | [2; k] -> WInst k
+    | [3; k] -> WEarly k
     | l -> failwith ("worker: bad op " ^ show_ints l)
   let ints_of_out o = [o]
   let blocked o = (o = blocked_out)
